@@ -6,11 +6,12 @@ import MokapotVerif.Model.QvaluesArr
 relation (`dirLe`).  The code does two more things to the score array before it ranks, and both
 are where an integer dtype can go wrong:
 
-    if np.issubdtype(scores.dtype, np.integer): scores = scores.astype(np.float32)   qvalues.py:106-107
+    if np.issubdtype(scores.dtype, np.integer): scores = scores.astype(np.float64)   qvalues.py:106-107
     srt_idx = np.argsort(-scores)   if desc   else   np.argsort(scores)              qvalues.py:110-113
 
-This file models them: `f32OfInt` (the value a float32 takes for an integer: exact below 2^24,
-round-to-nearest-even to 24 significant bits beyond), `prepScores`, the sort key `sortKey`
+This file models them: `f64OfInt` (the value a float64 takes for an integer: exact below 2^53,
+round-to-nearest-even to 53 significant bits beyond; until /repo 36ef8db the cast was to float32,
+`f32OfInt`, exact below 2^24 only — kept here for the refuted variant and for float32 *counts*), `prepScores`, the sort key `sortKey`
 (negated when higher is better) with the *ascending* `argsort` on the key, and the entry `tdcEntry`
 = validation, cast, key sort, array-level sweep.  Float scores are exact rationals.  Import-free.
 -/
@@ -24,8 +25,8 @@ def leqQ (a b : Rat) : Bool := decide (a ≤ b)
 def leqZ (a b : Int) : Bool := decide (a ≤ b)
 
 /-- a natural number rounded to 24 significant bits, ties to even: the magnitude a float32
-takes for it (no overflow for anything a 64-bit integer dtype holds).
-src: mokapot/qvalues.py:107 (`astype(np.float32)`) -/
+takes for it (no overflow for anything a 64-bit integer dtype holds).  Used for the float32
+*count* type (`Model/QvaluesCnt.lean`) and the former float32 cast of the scores. -/
 def roundNat24 (m : Nat) : Nat :=
   if m < 2 ^ 24 then m
   else if m % 2 ^ (Nat.log2 m - 23) < 2 ^ (Nat.log2 m - 24) then
@@ -36,10 +37,27 @@ def roundNat24 (m : Nat) : Nat :=
     (m / 2 ^ (Nat.log2 m - 23)) * 2 ^ (Nat.log2 m - 23)
   else (m / 2 ^ (Nat.log2 m - 23) + 1) * 2 ^ (Nat.log2 m - 23)
 
-/-- `np.float32(x)` for an integer `x` (sign and rounded magnitude).
-src: mokapot/qvalues.py:106-107 -/
+/-- `np.float32(x)` for an integer `x` (sign and rounded magnitude): the cast of qvalues.py:107
+before /repo 36ef8db; now only the refuted variant (`Mutants/QvaluesKey.lean`). -/
 def f32OfInt (x : Int) : Int :=
   if x < 0 then -((roundNat24 x.natAbs : Nat) : Int) else ((roundNat24 x.natAbs : Nat) : Int)
+
+/-- a natural number rounded to 53 significant bits, ties to even: the magnitude a float64
+takes for it.  src: mokapot/qvalues.py:107 (`astype(np.float64)`) -/
+def roundNat53 (m : Nat) : Nat :=
+  if m < 2 ^ 53 then m
+  else if m % 2 ^ (Nat.log2 m - 52) < 2 ^ (Nat.log2 m - 53) then
+    (m / 2 ^ (Nat.log2 m - 52)) * 2 ^ (Nat.log2 m - 52)
+  else if 2 ^ (Nat.log2 m - 53) < m % 2 ^ (Nat.log2 m - 52) then
+    (m / 2 ^ (Nat.log2 m - 52) + 1) * 2 ^ (Nat.log2 m - 52)
+  else if (m / 2 ^ (Nat.log2 m - 52)) % 2 = 0 then
+    (m / 2 ^ (Nat.log2 m - 52)) * 2 ^ (Nat.log2 m - 52)
+  else (m / 2 ^ (Nat.log2 m - 52) + 1) * 2 ^ (Nat.log2 m - 52)
+
+/-- `np.float64(x)` for an integer `x` (sign and rounded magnitude).
+src: mokapot/qvalues.py:106-107 -/
+def f64OfInt (x : Int) : Int :=
+  if x < 0 then -((roundNat53 x.natAbs : Nat) : Int) else ((roundNat53 x.natAbs : Nat) : Int)
 
 /-- the score array as passed: a floating dtype (exact values) or any integer dtype -/
 inductive ScoreArr where
@@ -51,11 +69,11 @@ def ScoreArr.len : ScoreArr → Nat
   | .floats xs => xs.length
   | .ints xs => xs.length
 
-/-- "Convert all scores to floats for safety": integer dtypes become float32, floating dtypes
+/-- "Convert all scores to floats for safety": integer dtypes become float64, floating dtypes
 stay as they are.  src: mokapot/qvalues.py:104-107 -/
 def prepScores : ScoreArr → List Rat
   | .floats xs => xs
-  | .ints xs => xs.map (fun x => ((f32OfInt x : Int) : Rat))
+  | .ints xs => xs.map (fun x => ((f64OfInt x : Int) : Rat))
 
 /-- what `np.argsort` is given: `-scores` when higher is better, `scores` otherwise.
 src: mokapot/qvalues.py:110-113 -/
@@ -71,7 +89,7 @@ def tdcKeyArr (desc : Bool) (xs : List (Rat × Bool)) : Option (List Rat) :=
   tdcArrOf leqQ desc xs.length (xs.zipIdx.mergeSort (keyLe desc))
 
 /-- `tdc(scores, target, desc)` with the score dtype explicit: labels validated, lengths
-compared (the cast keeps the length), integer scores cast to float32, sort on the key, sweep.
+compared (the cast keeps the length), integer scores cast to float64, sort on the key, sweep.
 The inner `Option` is the `_fdr2qvalue` loop (never `none`, see `C01_entry_floats_eq_spec`).
 src: mokapot/qvalues.py:81-144 -/
 def tdcEntry (desc : Bool) (scores : ScoreArr) (labels : LabelArr) : Except TdcErr (Option (List Rat)) :=
